@@ -679,7 +679,7 @@ public:
 
     auto get() const -> integer_t
     {
-        const BitField channel_mask = static_cast< integer_t >( parent_t::max_val ) <<_first_bit;
+        const BitField channel_mask = static_cast< BitField >( parent_t::max_val ) <<_first_bit;
         return static_cast< integer_t >(( this->get_data(num_bytes())&channel_mask ) >> _first_bit );
     }
 
@@ -733,14 +733,14 @@ public:
 
     auto get() const -> integer_t
     {
-        BitField const channel_mask = static_cast< integer_t >( parent_t::max_val ) << _first_bit;
+        BitField const channel_mask = static_cast< BitField >( parent_t::max_val ) << _first_bit;
         return static_cast< integer_t >(( this->get_data(num_bytes())&channel_mask ) >> _first_bit );
     }
 
     void set_unsafe(integer_t value) const {
-        const BitField channel_mask = static_cast< integer_t >( parent_t::max_val ) << _first_bit;
+        const BitField channel_mask = static_cast< BitField >( parent_t::max_val ) << _first_bit;
         std::size_t const n = num_bytes();
-        this->set_data((this->get_data(n) & ~channel_mask) | value<<_first_bit, n);
+        this->set_data((this->get_data(n) & ~channel_mask) | static_cast< BitField >( value )<<_first_bit, n);
     }
 
 private:
